@@ -453,6 +453,24 @@ Proof.
     rewrite E1 in Hn. now apply Hn.
 Qed.
 
+(* the driver's field parser satisfies the hypothesis of receive_no_panic *)
+Lemma fields_loop_no_panic : forall fuel big pos l acc q, fields_loop big fuel pos l acc <> Panic q.
+Proof.
+  induction fuel as [|fuel IH]; intros big pos l acc q; destruct l as [|b l]; cbn [fields_loop]; try discriminate.
+  repeat (match goal with
+          | |- (match ?x with _ => _ end) <> _ => destruct x
+          | |- (if ?x then _ else _) <> _ => destruct x
+          end; try discriminate; try apply IH).
+Qed.
+Lemma std_fields_no_panic big b q : std_fields big b <> Panic q.
+Proof.
+  unfold std_fields. destruct (length b <? 4)%nat; [discriminate|].
+  destruct (negb (lenN (skipn 4 b) =? u32_of big b)); [discriminate|]. apply fields_loop_no_panic.
+Qed.
+Theorem receive_no_panic_std : forall (o : oracle) (seq : N) (st : rstate) (p : panic),
+  snd (receive_message std_fields o seq st) <> Panic p.
+Proof. intros. apply receive_no_panic. intros. apply std_fields_no_panic. Qed.
+
 Theorem limit : forall (pf : parse_fields) (o : oracle) (seq : N) (st st1 : rstate) (hdr : bytes) (f : list fd) (ph : phdr),
   phase1 o st = (st1, Ok (hdr, f)) -> parse_primary hdr = Ok ph -> MAX_MESSAGE_SIZE < total_len ph ->
   receive_message pf o seq st = (st1, Err EExcess) /\
